@@ -71,10 +71,12 @@ Definition k_exec : bytes := [101; 120; 101; 99].
 
 Section Load.
 Variable cwd : bytes.                               (* the process' working directory: join(...) is made absolute against it *)
-Variable exec : bytes -> option bytes.              (* exec("cmd"): the command's standard output, None when it fails *)
+Variable exec : nat -> bytes -> option bytes.       (* exec("cmd") at statement number k of the file: the command's standard output,
+                                                       None when it fails.  Indexed by the call site: every exec(...) is an execution of
+                                                       its own, two calls with the same text need not print the same thing *)
 
 Inductive eres := EVal (v : bytes) | EFail (e : lerr).
-Definition eval_rhs (v : rhs) : eres :=
+Definition eval_rhs (k : nat) (v : rhs) : eres :=
   match v with
   | RString s => EVal s
   | RIdent _ => EFail EBadAssign
@@ -85,7 +87,7 @@ Definition eval_rhs (v : rhs) : eres :=
       if bytes_eqb f k_join then EVal (join_builtin cwd ss)
       else if bytes_eqb f k_exec then
         match ss with
-        | [c] => match exec c with Some o => EVal (trim o) | None => EFail (EBuiltinFailed f) end
+        | [c] => match exec k c with Some o => EVal (trim o) | None => EFail (EBuiltinFailed f) end
         | _ => EFail (EBuiltinFailed f)             (* exec takes the command as a single string *)
         end
       else EFail (EUnknownBuiltin f)
@@ -95,21 +97,21 @@ Definition eval_rhs (v : rhs) : eres :=
 Definition has_ltask (ts : list ltask) (n : bytes) : bool := existsb (fun t => bytes_eqb (lt_name t) n) ts.
 
 (* file.New: one pass over the nodes; ts is kept in file order *)
-Fixpoint load_nodes (root : bytes) (vs : vars) (ts : list ltask) (nodes : list node) : lres :=
+Fixpoint load_nodes (root : bytes) (k : nat) (vs : vars) (ts : list ltask) (nodes : list node) : lres :=
   match nodes with
   | [] => LOk vs ts
-  | NComment _ :: r => load_nodes root vs ts r
+  | NComment _ :: r => load_nodes root (S k) vs ts r
   | NAssign n v :: r =>
-    match eval_rhs v with
-    | EVal x => load_nodes root (set_var vs n x) ts r
+    match eval_rhs k v with
+    | EVal x => load_nodes root (S k) (set_var vs n x) ts r
     | EFail e => LErr e
     end
   | NTask doc name deps outs cmds :: r =>
     match load_task root vs doc name deps outs cmds with
     | None => LErr ETemplate
-    | Some t => if has_ltask ts name then LErr (EDuplicateTask name) else load_nodes root vs (ts ++ [t]) r
+    | Some t => if has_ltask ts name then LErr (EDuplicateTask name) else load_nodes root (S k) vs (ts ++ [t]) r
     end
   end.
 
-Definition load (root : bytes) (nodes : list node) : lres := load_nodes root [] [] nodes.
+Definition load (root : bytes) (nodes : list node) : lres := load_nodes root 0 [] [] nodes.
 End Load.
